@@ -28,7 +28,7 @@ DENIED_PREFIXES = ('std::env::', 'std::time::', 'std::fs::', 'std::net::', 'std:
 INTERIOR = ('std::cell::', 'Cell<', 'RefCell<', 'UnsafeCell<', 'std::sync::atomic::', 'Atomic', 'Mutex<', 'RwLock<', 'std::rc::Rc<', 'OnceCell<',
             'Lazy<', 'HashMap<', 'HashSet<', 'RandomState')
 PURE_INIT_CALLEES = ('hash_from_bytes_sha3_512', 'to_string', 'to_owned', 'compress', 'identity', 'into_iter', 'iter_mut', 'iter', 'zip', 'next',
-                     'enumerate', 'add', 'as_bytes', 'deref', 'index_mut', 'index', 'ristretto_masking_basepoints', 'get_or_init', 'new',
+                     'enumerate', 'add', 'as_bytes', 'deref', 'index_mut', 'index', 'get_or_init', 'new',
                      'from_uniform_bytes', 'update', 'finalize', 'default', 'into', 'drop', 'as_ref', 'borrow', 'branch', 'from_residual')
 
 
@@ -57,7 +57,9 @@ def run(ctx):
         for cb in facts.closures_of(ob):
             for bb, t in ctx.calls(cb):
                 nm = callee_decl(t).split('::')[-1]
-                rep.check(nm in PURE_INIT_CALLEES, 'R-C18-1', key + '/init/' + callee_decl(t), 'initialiser calls pure %s' % callee_decl(t),
+                # crate-local accessors of another once-cell are pure as well (their own initialiser is judged separately)
+                accessor = callee_name(t) in facts.fn and any(x['path'].rsplit('::', 1)[0] == callee_name(t) for x in statics)
+                rep.check(nm in PURE_INIT_CALLEES or accessor, 'R-C18-1', key + '/init/' + callee_decl(t), 'initialiser calls pure %s' % callee_decl(t),
                           'initialiser of %s calls %s, which is not on the pure allow-list' % (s['path'], callee_name(t)), ctx.where(cb, bb))
 
     # R-C18-2 unsafe / interior mutability / thread locals
